@@ -78,6 +78,7 @@ type crashCtl struct {
 	writeFailed bool
 	// mid-call interference: run once, while the device call of this invocation is in flight
 	midcall  func()
+	kinds    []string // configuration store writes of this invocation that were performed: "U" Update, "S" UpdateStatus, "C" Create
 	devCalls int
 }
 
@@ -138,7 +139,17 @@ func (c *crashCtl) reset(b int) {
 	c.budget, c.calls, c.race, c.raced = b, 0, -1, false
 	c.readFault, c.reads, c.faulted, c.callsAtStop, c.writeFailed, c.midcall, c.devCalls = -1, 0, false, 0, false, nil, 0
 	c.writeFault = -1
+	c.kinds = nil
 	c.mu.Unlock()
+}
+
+func (c *crashCtl) kind(k string, err error) error {
+	if err == nil {
+		c.mu.Lock()
+		c.kinds = append(c.kinds, k)
+		c.mu.Unlock()
+	}
+	return err
 }
 
 // failWrite is asked by the store decorators right after before(): true = answer Unavailable instead of writing
@@ -261,21 +272,21 @@ func (s *cCfgs) Get(ctx context.Context, id configapi.ConfigurationID) (*configa
 
 func (s *cCfgs) Create(ctx context.Context, p *configapi.Configuration) error {
 	s.c.before()
-	return s.c.wrote(s.Store.Create(ctx, p))
+	return s.c.kind("C", s.c.wrote(s.Store.Create(ctx, p)))
 }
 func (s *cCfgs) Update(ctx context.Context, p *configapi.Configuration) error {
 	s.c.before()
 	if s.c.failWrite() {
 		return errors.NewUnavailable("injected: store write failed")
 	}
-	return s.c.wrote(s.Store.Update(ctx, p))
+	return s.c.kind("U", s.c.wrote(s.Store.Update(ctx, p)))
 }
 func (s *cCfgs) UpdateStatus(ctx context.Context, p *configapi.Configuration) error {
 	s.c.before()
 	if s.c.failWrite() {
 		return errors.NewUnavailable("injected: store write failed")
 	}
-	return s.c.wrote(s.Store.UpdateStatus(ctx, p))
+	return s.c.kind("S", s.c.wrote(s.Store.UpdateStatus(ctx, p)))
 }
 
 type cTopo struct {
@@ -942,6 +953,12 @@ func (h *H) reconcile(id recID, budget int) {
 	calls := h.crash.count()
 	raced := h.crash.didRace()
 	stopped, callsAtStop := h.crash.stopped()
+	h.crash.mu.Lock()
+	kinds := strings.Join(h.crash.kinds, "")
+	h.crash.mu.Unlock()
+	if kinds == "" {
+		kinds = "-"
+	}
 	h.crash.reset(-1)
 	if nested {
 		h.crash.restore(outer)
@@ -982,7 +999,10 @@ func (h *H) reconcile(id recID, budget int) {
 	lab += fmt.Sprintf(" %s %d)", b, v)
 	if v != -1 {
 		res += "\t" + flattenDoc(doc)
+	} else {
+		res += "\t-"
 	}
+	res += "\t" + kinds
 	h.emit(lab, res)
 }
 
